@@ -23,7 +23,7 @@ import Pog.Lemmas.SanIdem
     optional argument left as None is omitted                                      (full)    `optional_none_omitted`
     cookie parameters are sent                                                     ✗         `cookie_never_sent_counterexample`, `cookie_never_sent`
     ≥ 2 request media types: query and header arguments are sent                   ✗         `multi_content_drops_query_counterexample`, `multi_content_drops_query`
-    an operation-level parameter overrides the path-level one of the same name     ✗         `path_level_override_breaks_module_counterexample`
+    an operation-level parameter overrides the path-level one of the same name     full      `path_level_override_former_witness` (F4 repaired), `irParams_no_duplicate_key`
     a non-string header argument is sent                                           ✗         `nonstr_header_counterexample`
     ≥ 2 media types: optional parameters are optional / undeclared path variables work  ✗     `multi_content_optional_is_required_counterexample`,
                                                                                               `multi_content_undeclared_path_var_counterexample`
@@ -31,10 +31,12 @@ import Pog.Lemmas.SanIdem
 -/
 /-
   C04 at the loader (Pog/Model/Loader.lean; claimed from Pog/Props/Loader.lean):
-    parameters_order_and_count             the parameters of an operation are the path-level ones (in order) followed by the operation-level
-                                           ones (in order), one per node, each parsed with THIS operation's id; no merge (`parameters_not_merged`)
+    parameters_order_and_count             the parameters of an operation are the path-level ones no operation-level parameter overrides (in
+                                           order) followed by the operation-level ones (in order), each parsed with THIS operation's id
+    parameters_operation_level_wins        an operation-level parameter replaces the path-level one with the same (name, in) (F4 repaired;
+                                           `parameters_override_former_witness` was `parameters_not_merged`)
 -/
--- INDEX Pog.LoaderProps: parameters_order_and_count, parameters_carry_operation_id, parameters_not_merged
+-- INDEX Pog.LoaderProps: parameters_order_and_count, parameters_carry_operation_id, parameters_operation_level_wins, parameters_override_former_witness, parameters_override_is_python_eq
 namespace Pog.C04
 open Pog Pog.GenCode
 
@@ -492,13 +494,32 @@ theorem multi_content_undeclared_path_var_counterexample :
 
 /-! ## ✗ further excluded classes, each with a witness -/
 
-/-- ✗ (OpenAPI: an operation-level parameter overrides the path-level one with the same name and location)
-    The loader concatenates both lists; the emitted `def` has a duplicate argument and the module does not compile. -/
-theorem path_level_override_breaks_module_counterexample :
+/-- (OpenAPI: an operation-level parameter overrides the path-level one with the same name and location)  The FORMER
+    WITNESS of F4: the loader used to concatenate both lists, the emitted `def` had a duplicate argument and the module
+    did not compile.  Since the repair `irParams` drops the overridden path-level entry: the module compiles and the
+    call is sent. -/
+theorem path_level_override_former_witness :
     let op : Op := ⟨"GET".toList, [.lit "/a/".toList, .var "id".toList],
       irParams [⟨"id".toList, .path, true⟩] [⟨"id".toList, .path, true⟩], none, [⟨.num 200, []⟩]⟩
-    moduleOk op = false ∧ buildRequest op [("id_".toList, .str "7".toList)] = .error .moduleError := by
+    op.params = [⟨"id".toList, .path, true⟩] ∧ moduleOk op = true ∧
+    buildRequest op [("id_".toList, .str "7".toList)]
+      = .ok { method := "GET".toList, path := [.lit "/a/".toList, .val (.str "7".toList)], query := none,
+              headers := none, body := .none } := by
   decide +kernel
+
+/-- `irParams` yields no duplicate (name, location) when neither list has one: the source of duplicate arguments that
+    remains is two DIFFERENT parameters whose names sanitise to one identifier (`moduleOk`). -/
+theorem irParams_no_duplicate_key (pl ol : List GParam)
+    (hp : pl.Pairwise (fun a b => ¬ (a.name = b.name ∧ a.loc = b.loc)))
+    (ho : ol.Pairwise (fun a b => ¬ (a.name = b.name ∧ a.loc = b.loc))) :
+    (irParams pl ol).Pairwise (fun a b => ¬ (a.name = b.name ∧ a.loc = b.loc)) := by
+  refine List.pairwise_append.mpr ⟨hp.sublist List.filter_sublist, ho, ?_⟩
+  intro a ha b hb
+  simp only [List.mem_filter, Bool.not_eq_true', List.any_eq_false, Bool.and_eq_true, beq_iff_eq] at ha
+  exact ha.2 b hb
+
+example : ([⟨"id".toList, .path, true⟩, ⟨"id".toList, .query, false⟩] : List GParam).Pairwise
+    (fun a b => ¬ (a.name = b.name ∧ a.loc = b.loc)) := by decide
 
 /-- ✗ (every supplied header parameter is sent) an integer-typed header argument is handed to httpx as an
     `int`; httpx raises `TypeError` and nothing is sent. -/
